@@ -117,7 +117,7 @@ class C17(Check):
                 if off <= cut < off + 2:
                     cut = off
                 img = img[:cut]
-            out.append({"img": img, "mode8": rng.random() < 0.5, "busy": rng.choice([0, 0, 1, 3]), "seed": rng.randrange(1 << 30)})
+            out.append({"img": img, "mode8": rng.random() < 0.5, "busy": rng.choice([0, 0, 1, 3]), "seed": rng.randrange(1 << 30), "twice": rng.random() < 0.3})
         return out
 
     def corpus(self):
@@ -140,6 +140,16 @@ class C17(Check):
             t = Terminal(ec)
             t.position = 1005
             try:
+                if case.get("twice"):
+                    # the same Terminal object decoded ANOTHER image before (a full one with mailbox and both process data
+                    # areas): nothing of it may show in what it reports for the image under test
+                    prev = build_image((2, 0x1234, 5, 77), [(41, enc_sms([(0x1000, 128, 0x26, 1), (0x1080, 128, 0x22, 2), (0x1100, 4, 0x24, 3), (0x1180, 6, 0x20, 4)])),
+                                                           (0x8001, bytes(range(8)))])
+                    sim.eeprom = prev
+                    await asyncio.wait_for(t.read_eeprom(), 120)
+                    if 41 in t.eeprom:
+                        t.parse_sync_managers(t.eeprom[41])
+                    sim.eeprom = case["img"]
                 await asyncio.wait_for(t.read_eeprom(), 120)
                 idn = [t.vendorId, t.productCode, t.revisionNo, t.serialNo]
                 d = [[k, v] for k, v in t.eeprom.items()]
@@ -262,7 +272,7 @@ class C17(Check):
     def rule(self):
         return ("random SII images: 0-7 categories with distinct standard and vendor-specific types (bit 15 set, some equal to a standard type but for that bit; 10% with a duplicate), random even lengths and contents, sync-manager categories "
                 "with random entries/control bytes, PDO categories with bit/byte/gap entries (85% byte-aligned), random identity, garbage after the end marker, "
-                "5% truncated images; 4- and 8-byte EEPROM reads; busy for 0-3 polls; non-trivial = at least two categories decoded")
+                "5% truncated images; 4- and 8-byte EEPROM reads; busy for 0-3 polls; 30%: the Terminal object decoded another (full) image before; non-trivial = at least two categories decoded")
 
     def distribution(self, cases, observed):
         d = {"mode8": 0, "mode4": 0, "busy": 0, "errors": 0, "categories": 0}
@@ -274,10 +284,10 @@ class C17(Check):
         return d
 
     def describe(self, case):
-        return {"img": case["img"].hex(), "mode8": case["mode8"], "busy": case["busy"], "seed": case["seed"]}
+        return {"img": case["img"].hex(), "mode8": case["mode8"], "busy": case["busy"], "seed": case["seed"], "twice": bool(case.get("twice"))}
 
     def case_from_json(self, w):
-        return {"img": bytes.fromhex(w["img"]), "mode8": w["mode8"], "busy": w["busy"], "seed": w["seed"]}
+        return {"img": bytes.fromhex(w["img"]), "mode8": w["mode8"], "busy": w["busy"], "seed": w["seed"], "twice": w.get("twice", False)}
 
 
 CHECK = C17
